@@ -136,7 +136,15 @@ func chainRun(c *Ctx, net *Net, g *TxGen, f *Factory, o ChainRunOpts) {
 		// fit: the miner must leave them out without a trace (the header gas limit is the miner's choice)
 		f.GasLimitOverride = 0
 		if h > 1 && c.Draw("gaslimit", 5) == 4 {
-			f.GasLimitOverride = uint64(30000 + c.Draw("gaslimit", 300000))
+			switch c.Draw("gaslimit", 3) {
+			case 0:
+				f.GasLimitOverride = uint64(30000 + c.Draw("gaslimit", 300000))
+			case 1:
+				// room for a box (the generator's boxes buy 2,000,000) and for some of its sub-transactions only
+				f.GasLimitOverride = uint64(2000000 + c.Draw("gaslimit", 1500000))
+			default:
+				f.GasLimitOverride = uint64(21000*(1+c.Draw("gaslimit", 120)) + c.Draw("gaslimit", 2))
+			}
 			c.Fault("small_block_gas_limit")
 		}
 		c.Context = fmt.Sprintf("mining block %d by deputy %d with candidates %v", h, d, txsSummary(cands))
